@@ -12,7 +12,8 @@
    session, what is stated of the final state holds after every operation. *)
 From Coq Require Import ZArith List Bool.
 Import ListNotations.
-From Urwid Require Import PyBase PyList vterm_csi_gen VTerm VT100Ref VTermRefine VTermListFacts VTermProofs VTermParse VTermSim VTermSimB VTermSimC VTermSimD VTermSimF VTermSimSgr VTermSimO VTermSim2.
+From Urwid Require Import PyBase PyList vterm_csi_gen VTerm VT100Ref VTermRefine VTermListFacts VTermProofs VTermParse VTermSim VTermSimB VTermSimC VTermSimD VTermSimF VTermSimSgr VTermSimO VTermSim2
+  ColourBase colours_gen Colours VTermAttrSpec.
 Open Scope Z_scope.
 
 (* --- clause 1: never raises; the grid is exactly height x width (so is the view handed to the renderer,
@@ -196,6 +197,41 @@ Example refines_mixed :
   agree_on 5 3 ([CSgr [1; 31]; CCh 97; CSgr [0; 44]; CCh 98; CCup 9999 9999; CCh 99; CCh 100; CEl 1; CRi; CRi; CRi;
                  CIch 2; CDch 1; CStbm 2 3; CCh 101; CLf; CLf; CLf; CEd 0; CCub 9; CCuf 2; CBs; CCh 102]) = true.
 Proof. vm_compute. reflexivity. Qed.
+
+(* --- the AttrSpec abstraction of the model, discharged against the proved model of the class (C18, read-only) ---
+   Model/VTerm.v keeps a record (fg, bg, colors, bold, underline, blink, standout) where vterm.py keeps an AttrSpec.
+   [vt_desc] is sgi_to_attrspec's _defaulter, [vt_parts] its decoded_fg; [attrspec_new] is C18's AttrSpec.__init__
+   (proved equal to the translated methods there).  For every colour number the model admits at a depth - all 2^24
+   direct colours included - the constructor accepts and the packed value reads back ("default" in .foreground,
+   .foreground_number, .background_number, .colors, .bold, .underline, .blink, .standout) exactly as the record
+   says; reverse_attrspec's copy_modified(fg=...) rebuilds at the reported depth and reads back with only the
+   standout flag changed. *)
+Theorem attrspec_abstraction_sound :
+  forall fg bg colors b u k s a,
+  mk_attrspec fg bg colors b u k s = Ok (Some a) ->
+  exists fd bd v,
+    vt_desc fg colors = Ok fd /\ vt_desc bg colors = Ok bd /\
+    attrspec_new (vt_parts fd b u k s) bd colors = ROk v /\ reads v a.
+Proof. exact attrspec_abstraction. Qed.
+Print Assumptions attrspec_abstraction_sound.
+
+Theorem attrspec_none_is_default :
+  forall fg bg colors b u k s,
+  mk_attrspec fg bg colors b u k s = Ok None ->
+  vt_desc fg colors = Ok DDefault /\ vt_desc bg colors = Ok DDefault /\ vt_parts DDefault b u k s = [PCol DDefault].
+Proof. exact attrspec_abstraction_none. Qed.
+Print Assumptions attrspec_none_is_default.
+
+Theorem reverse_attrspec_sound :
+  forall fg bg colors b u k s s',
+  colors_ok colors = true -> color_ok fg colors = true -> color_ok bg colors = true ->
+  exists fd bd v v',
+    attrspec_new (vt_parts fd b u k s) bd colors = ROk v /\
+    foreground v = Ok (fd, [b; false; s; k; u; false]) /\ background v = Ok bd /\
+    attrspec_new (vt_parts fd b u k s') bd (attr_colors v) = ROk v' /\
+    reads v' (mkAttr fg bg (if is_none fg && is_none bg then 1 else colors) b u k s').
+Proof. exact reverse_attrspec_object. Qed.
+Print Assumptions reverse_attrspec_sound.
 
 (* --- the translated code is what the proofs are about --- *)
 Theorem constrain_coords_in_range :
